@@ -27,6 +27,7 @@ class Mon:
         self.frames = []              # active instruction frames [opname, loop_iterations]
         self.depth = 0                # CALL/EVAL nesting
         self.max_depth = 0
+        self.calls_executed = 0       # CALL / EVAL instructions executed (incl. the EVAL inside MERKLEVAL / TAPROOT)
         self.hw_items = 0
         self.hw_item = 0
         self.puts = 0
@@ -207,6 +208,8 @@ def install():
             m.instr += 1
             if m.instr > m.horizon:
                 raise Horizon()
+            if is_call:
+                m.calls_executed += 1
             fr = [name, 0]
             m.frames.append(fr)
             before = getattr(tape, 'pointer', 0)
